@@ -3,6 +3,7 @@ package main
 import (
 	"fmt"
 	"go/ast"
+	"go/constant"
 	"go/token"
 	"go/types"
 	"strings"
@@ -612,12 +613,18 @@ func unicodeEscapeRule(c *Ctx, rule string) {
 	}
 	derived := map[ssa.Value]bool{}
 	var work []ssa.Value
-	for _, b := range fn.Blocks {
-		for _, ins := range b.Instrs {
-			if call, ok := ins.(*ssa.Call); ok {
-				if cal := call.Call.StaticCallee(); cal != nil && cal.Pkg != nil && cal.Pkg.Pkg.Path() == "strconv" && strings.HasPrefix(cal.Name(), "Parse") {
-					derived[call] = true
-					work = append(work, call)
+	scope := append([]*ssa.Function{fn}, moduleCallees(fn, 1, map[*ssa.Function]bool{})...)
+	for _, f := range scope {
+		if f != fn && fnPkg(f) != fnPkg(fn) {
+			continue
+		}
+		for _, b := range f.Blocks {
+			for _, ins := range b.Instrs {
+				if call, ok := ins.(*ssa.Call); ok {
+					if cal := call.Call.StaticCallee(); cal != nil && cal.Pkg != nil && cal.Pkg.Pkg.Path() == "strconv" && strings.HasPrefix(cal.Name(), "Parse") {
+						derived[call] = true
+						work = append(work, call)
+					}
 				}
 			}
 		}
@@ -636,6 +643,36 @@ func unicodeEscapeRule(c *Ctx, rule string) {
 				if x.Index == 0 && !derived[x] {
 					derived[x] = true
 					work = append(work, x)
+				}
+			case *ssa.Return:
+				// returned by a helper: go on with that result at its call sites
+				for k, rv := range x.Results {
+					if rv != v {
+						continue
+					}
+					for _, f := range scope {
+						for _, b := range f.Blocks {
+							for _, ins := range b.Instrs {
+								call, ok := ins.(*ssa.Call)
+								if !ok || call.Call.StaticCallee() != x.Parent() {
+									continue
+								}
+								if len(x.Results) == 1 {
+									if !derived[call] {
+										derived[call] = true
+										work = append(work, call)
+									}
+									continue
+								}
+								for _, r2 := range *call.Referrers() {
+									if ex, ok := r2.(*ssa.Extract); ok && ex.Index == k && !derived[ex] {
+										derived[ex] = true
+										work = append(work, ex)
+									}
+								}
+							}
+						}
+					}
 				}
 			case *ssa.Phi, *ssa.ChangeType:
 				if !derived[x.(ssa.Value)] {
@@ -724,10 +761,10 @@ func unicodeEscapeRule(c *Ctx, rule string) {
 				continue
 			}
 			bo, ok := iff.Cond.(*ssa.BinOp)
-			if !ok || !derived[bo.X] {
+			if !ok {
 				continue
 			}
-			k, isC := constInt(bo.Y)
+			boOp, k, isC := cmpWithConst(bo, derived)
 			if !isC {
 				continue
 			}
@@ -741,15 +778,15 @@ func unicodeEscapeRule(c *Ctx, rule string) {
 					continue
 				}
 				pb, ok := pif.Cond.(*ssa.BinOp)
-				if !ok || !derived[pb.X] {
+				if !ok {
 					continue
 				}
-				pk, isC := constInt(pb.Y)
+				pbOp, pk, isC := cmpWithConst(pb, derived)
 				if !isC {
 					continue
 				}
 				onTrue := p.Succs[0] == d
-				op := pb.Op
+				op := pbOp
 				if !onTrue {
 					switch op {
 					case token.GEQ:
@@ -784,7 +821,7 @@ func unicodeEscapeRule(c *Ctx, rule string) {
 				}
 			}
 			var tlo, thi int64 // values for which the condition is true
-			switch bo.Op {
+			switch boOp {
 			case token.GEQ:
 				tlo, thi = k, top
 			case token.GTR:
@@ -802,6 +839,14 @@ func unicodeEscapeRule(c *Ctx, rule string) {
 				for _, ins := range su.Instrs {
 					if recordsError(ins) {
 						errArm = true
+					}
+					// in a helper: the return that says "not a code point"
+					if ret, ok := ins.(*ssa.Return); ok && f != fn {
+						for _, rv := range ret.Results {
+							if cn, ok := rv.(*ssa.Const); ok && cn.Value != nil && cn.Value.Kind() == constant.Bool && !constant.BoolVal(cn.Value) {
+								errArm = true
+							}
+						}
 					}
 				}
 				if !errArm {
@@ -1378,4 +1423,29 @@ func runeTruncateRule(c *Ctx, rule string, pkgs ...string) {
 		}
 	}
 	_ = n
+}
+
+// cmpWithConst: bo compares a derived value with an integer constant; the operator is returned as
+// if the derived value were on the left (`0xD800 <= n` reads n >= 0xD800).
+func cmpWithConst(bo *ssa.BinOp, derived map[ssa.Value]bool) (token.Token, int64, bool) {
+	if derived[bo.X] {
+		k, ok := constInt(bo.Y)
+		return bo.Op, k, ok
+	}
+	if derived[bo.Y] {
+		k, ok := constInt(bo.X)
+		op := bo.Op
+		switch op {
+		case token.LSS:
+			op = token.GTR
+		case token.LEQ:
+			op = token.GEQ
+		case token.GTR:
+			op = token.LSS
+		case token.GEQ:
+			op = token.LEQ
+		}
+		return op, k, ok
+	}
+	return 0, 0, false
 }
